@@ -80,6 +80,7 @@ var pinnedCases = []pinnedCase{
 	{"C02", "select-count-marker", `return select("#x",1,2)`, "2", nil},
 	{"C20", "not-found-message-format", `package.path="./?.lua" local ok,msg=pcall(require,"zzz") return ok,(msg:match("module.*$"):gsub("\n\t",";"))`, "false|module 'zzz' not found:;no field package.preload['zzz'];no file './zzz.lua'", nil},
 	// sixth batch
+	{"C04", "xpcall-calls-a-callable-object", `local c = setmetatable({}, {__call = function(self, ...) return "called", self ~= nil end}) local a, b, c2 = xpcall(c, function(m) return m end) local d, e = xpcall(nil, function(m) return "H" end) return a, b, c2, d, e`, "true|called|true|false|H", nil},
 	{"C19", "setvbuf-keeps-pending-bytes", `local f = io.open("$F", "w") f:setvbuf("full", 1024) f:write("abc") f:setvbuf("no") f:write("def") f:setvbuf("full", 16) f:write("ghi") f:setvbuf("full", 64) f:write("jkl") f:close() local g = io.open("$F") local s = g:read("*a") g:close() return s`, "abcdefghijkl", nil},
 	{"C19", "setvbuf-line-mode", `local f = io.open("$F", "w") local ok = pcall(f.setvbuf, f, "line") f:write("abc\n") f:write("de") f:close() local g = io.open("$F") local s = g:read("*a") g:close() return ok, s`, "true|abc\nde", nil},
 	{"C19", "failed-number-read-is-one-nil", `local f = io.open("$F", "w") f:write("a\nXY\n") f:close() f = io.open("$F") local n = select("#", f:read("*l", "*n", "*l")) f:seek("set", 0) local a, b = f:read("*l", "*n") f:seek("end") local m = select("#", f:read("*n")) f:close() return n, a, b, m`, "2|a|nil|1", nil},
@@ -122,6 +123,7 @@ return out[1], out[2], out[3], out[4], out[5], out[6]`, "a b|a b (*temporary)|a 
 }
 
 func runPinned(r *harness.Run, prop string) {
+	nilArgsFamily(r, prop)
 	for _, pc := range pinnedCases {
 		if pc.prop != prop {
 			continue
